@@ -159,6 +159,8 @@ def r02c2(ctx):
     f = m.func("graphtage.levenshtein.levenshtein_distance")
     tb = pat.first("D = [[0] * C for ANY in range(R)]", f.node)[1] or pat.first("D = [[0] * C for X in range(R)]", f.node)[1]
     if tb is None:
+        if _rolling_rows(ctx, f):
+            return
         ctx.inconclusive("R02c", f.file, "levenshtein_distance", f.node, "table", "distance table construction not recognised")
         return
     D, C, R = tb["D"], tb["C"], tb["R"]
@@ -179,6 +181,49 @@ def r02c2(ctx):
     else:
         ctx.violation("R02c", f.file, "levenshtein_distance", f.node, "recurrence",
                       "the cell recurrence is no longer min(up + 1, left + 1, diagonal + substitution cost)")
+
+
+def _rolling_rows(ctx, f):
+    """Two-row form of the same table: `P = list(range(C))`, then per row a fresh `D` whose first cell is the row
+    number, the same three-neighbour recurrence reading the previous row, and `P = D` at the end of the row."""
+    node, b = pat.first("P = list(range(C))", f.node)
+    if b is None:
+        return False
+    P, C = b["P"], b["C"]
+    outer = None
+    for lp in walk_no_nested(f.node):
+        if isinstance(lp, ast.For) and isinstance(lp.target, ast.Name) and pat.has(f"{P} = D", lp, stmts=True):
+            _, rb = pat.first(f"{P} = D", lp)
+            outer, D = lp, rb["D"]
+            break
+    if outer is None or D == P:
+        return False
+    I = outer.target.id
+    ctx.proved("R02c", f.file, "levenshtein_distance", node, "border first row", f"the first row is list(range({C})): 0..{C}-1")
+    it = ast.unparse(outer.iter).replace(" ", "")
+    full = it.startswith("range(1,")
+    first_cell = (pat.has(f"{D}[0] = {I}", outer, stmts=True) or pat.has(f"{D} = [{I}] + ANY", outer, stmts=True)
+                  or pat.has(f"{D} = [{I}] * ANY", outer, stmts=True))
+    if first_cell and full:
+        ctx.proved("R02c", f.file, "levenshtein_distance", outer, "border first column", f"every row starts with its row number `{I}`")
+    else:
+        ctx.violation("R02c", f.file, "levenshtein_distance", outer, "border first column",
+                      f"the first cell of each new row `{D}` is not set to the row number `{I}`"
+                      + ("" if full else f" (rows iterate `{norm(outer.iter, 30)}`)") +
+                      ": cells left at 0 make deleting a whole prefix free, so two different scalars (e.g. -5 vs 5, 10 vs 0) "
+                      "get cost 0")
+    rec = pat.first(f"{D}[J] = min({P}[J] + 1, {D}[J - 1] + 1, {P}[J - 1] + K)", outer)[0]
+    if rec is not None:
+        ctx.proved("R02c", f.file, "levenshtein_distance", rec, "recurrence", "each cell is the minimum over delete / insert / substitute")
+    else:
+        ctx.violation("R02c", f.file, "levenshtein_distance", outer, "recurrence",
+                      "the cell recurrence is no longer min(up + 1, left + 1, diagonal + substitution cost)")
+    rets = [r for r in walk_no_nested(f.node) if isinstance(r, ast.Return) and isinstance(r.value, ast.Subscript)]
+    for r in rets:
+        t = ast.unparse(r.value).replace(" ", "")
+        if t not in (f"{P}[{C}-1]", f"{P}[-1]"):
+            ctx.violation("R02c", f.file, "levenshtein_distance", r, "answer cell", f"`{norm(r)}` is not the last cell of the last row")
+    return True
 
 
 def r02d(ctx):
@@ -357,6 +402,8 @@ def run(ctx):
     from . import c14
     from .. import cli
     f, specs, groups = cli.parse_cli(m)
+    from . import c03
+    c03.r03a(ctx, only=("edits-only",))   # a compound edit's cost counts every sub-edit its script lists (else unequal lists can cost 0)
     c14.r14d(ctx, f, specs)     # the command compares the two trees it loaded (no CLI-only substitution or transformation)
     ctx.assume("positivity of a computed non-zero cost for arbitrary unequal values (numeric) is not decided beyond the "
                "structural clauses above")
